@@ -272,7 +272,7 @@ func (P *Prog) validateTranslator(entry *ssa.Function, n int, seed uint64, vecs 
 }
 
 func (P *Prog) replayViolation(entry string, v *Violation) ReplayResult {
-	if P.cfg.Replay == "native" {
+	if P.cfg.Replay == "native" && v.Kind != "race" {
 		var last *nativeRun
 		for try := 0; try < 3; try++ {
 			nr := P.runNative(entry, v.Values, 0)
